@@ -122,6 +122,20 @@ pub fn op_end(tid: usize) -> (u64, u64) {
 }
 
 thread_local! {
+    static CLONE_YIELDS: Cell<bool> = const { Cell::new(true) };
+}
+
+/// Whether an element clone is a scheduling point (switched off for the lock-step comparison of an
+/// adaptor with its underlying iterator, which must see identical yield-point sequences).
+pub fn set_clone_yields(v: bool) {
+    CLONE_YIELDS.with(|c| c.set(v))
+}
+
+pub fn clone_yields() -> bool {
+    CLONE_YIELDS.with(|c| c.get())
+}
+
+thread_local! {
     static TEARING_DOWN: Cell<bool> = const { Cell::new(false) };
 }
 
